@@ -675,19 +675,6 @@ ElemNumber::getPreviousNode(
             if(0 == next)
             {
                 next = pos->getParentNode();
-
-                if(0 != next &&
-                   (next->getNodeType() == XalanNode::DOCUMENT_NODE ||
-                    (0 != fromMatchPattern &&
-                        fromMatchPattern->getMatchScore(
-                            next,
-                            *this,
-                            executionContext) != XPath::eMatchScoreNone)))
-                {
-                    pos = 0; // return 0 from function.
-
-                    break; // from while loop
-                }
             }
             else
             {
@@ -704,6 +691,21 @@ ElemNumber::getPreviousNode(
             }
 
             pos = next;
+
+            // Every node visited on the way back is tested against the
+            // 'from' pattern, not just the parents: the first one that
+            // matches ends the count, and is not counted itself.
+            if(0 != pos &&
+               0 != fromMatchPattern &&
+               fromMatchPattern->getMatchScore(
+                        pos,
+                        *this,
+                        executionContext) != XPath::eMatchScoreNone)
+            {
+                pos = 0; // return 0 from function.
+
+                break; // from while loop
+            }
 
             if(0 != pos &&
                (0 == countMatchPattern ||
